@@ -124,7 +124,6 @@ Example C06_crash_points :
     (Some 3, Some 1, [true; true; true; false; false; true; true; true]);
     (Some 8, Some 1, [true; true; true; true; true; true; true; true]);
     (Some 8, None, [false; true; true; true; true; true; true; true]);
-    (Some 8, None, [false; true; true; true; true; true; true; true]);
     (Some 8, Some 2, [false; true; true; true; true; true; true; true]);
     (Some 8, Some 2, [false; true; true; true; true; true; true; true]) ].
 Proof. vm_compute. reflexivity. Qed.
